@@ -581,3 +581,33 @@ pub fn decided_scripts() -> Vec<Script> {
 }
 
 pub const DECIDED_NAME: &str = "E10 games continued past a decided position: decided at the root by goal / loss of all rabbits (5 cases x file mirror x colour swap); both elephants step out and back, the same decided position stands a second time (and a third is attempted): every turn start on the way is compared with the official order";
+
+// ---------------------------------------------------------------------------------------------------------------
+// Everything withheld with TWO mobile pieces: Gold E shuttles a1-a2-a3 (a1 is a dead end beside Silver e b1), Gold D
+// shuttles h1-h2 (Silver d g1 holds it), Gold R c1 is frozen, Silver m shuttles e7-e6.  After eight turns each, "E a1,
+// D h1" and "E a1, D h2" have both ended a Gold turn twice; Gold then burns a2s a1n a2s: the pass and the step of the
+// UNMOVED dog (h1n) are third repetitions, a1n restores the start of the turn - nothing is left, Gold has lost.
+// ---------------------------------------------------------------------------------------------------------------
+pub fn two_piece_withheld_scripts() -> Vec<Script> {
+    let game = "a2s p e7s p a1n h1n p e6n p a2s p e7s p a1n a2n h2s p e6n p a3s a2s p e7s p a1n h1n p e6n p a2s p e7s p a1n h2s p e6n p";
+    let fins = [("three burnt steps: everything withheld", "a2s a1n a2s p"), ("one burnt step, then the dog's third repetition is asked for", "a2s h1n p"), ("two burnt steps", "a2s a1n p")];
+    let pieces: [(&str, bool, u8); 7] = [("a2", true, 5), ("b1", false, 5), ("c1", true, 0), ("g1", false, 2), ("h1", true, 2), ("a8", false, 0), ("e7", false, 4)];
+    let mut out = vec![];
+    for (what, fin) in fins.iter() {
+        for mirror in [false, true] {
+            for swap in [false, true] {
+                let mut board = [rm::EMPTY; 64];
+                for (name, gold, st) in pieces.iter() {
+                    let t = transform_text(&format!("{}n", name), mirror, swap);
+                    board[crate::e2::sq(&t[0..2])] = rm::cell(*gold != swap, *st);
+                }
+                let text = format!("{} {}", game, fin);
+                let acts: Vec<Action> = text.split_whitespace().map(|a| transform_text(a, mirror, swap).parse::<Action>().expect("script action parses")).collect();
+                out.push(Script { board, gold: !swap, move_number: 2, turns: split_turns(&acts), config: serde_json::json!({"game": what, "mirrored_files": mirror, "colours_swapped_ranks_flipped": swap}) });
+            }
+        }
+    }
+    out
+}
+
+pub const TWO_PIECE_NAME: &str = "E10 everything withheld with two mobile pieces: Gold E a1-a2-a3 and D h1-h2 shuttle, Silver m e7-e6; two different positions end a Gold turn twice, then Gold burns steps until the pass and the step of the unmoved dog are third repetitions and the only other step restores the start of the turn (loss); 3 endings x file mirror x colour swap";
